@@ -216,6 +216,13 @@ struct TreeGen
 			return n;
 		}
 		n.k = 'o';
+		if (identKeys && r.chance(15)) // a typed object: Name{...} in XDL, an ordinary "$type" member in JSON
+		{
+			Node cls;
+			cls.k = 's';
+			do cls.s = ident(0); while (cls.s == "Y" || cls.s == "N" || cls.s == "true" || cls.s == "false" || cls.s == "null"); // not a literal word
+			n.o.push_back(std::make_pair(std::string(ASL_XDLCLASS), cls));
+		}
 		int m = r.chance(10) ? 0 : r.range(1, 5);
 		for (int j = 0; j < m; j++)
 		{
@@ -313,10 +320,11 @@ int main(int argc, char** argv)
 		Node t = gen.tree(rng.range(0, 5), bad);
 		Var v = build(t);
 		struct M { int mode; bool exact; };
-		static const M modes[] = { { Json::NONE, true }, { Json::PRETTY, true }, { Json::SIMPLE, false }, { Json::NICE, false } };
-		for (int m = 0; m < 4; m++)
+		static const M modes[] = { { Json::NONE, true }, { Json::PRETTY, true }, { Json::SIMPLE, false }, { Json::NICE, false },
+		                           { Json::SHORTF, false }, { Json::SHORTF | Json::PRETTY, false }, { Json::SHORTF | Json::NICE, false } };
+		for (int m = 0; m < 7; m++)
 		{
-			if (m >= 2 && !rng.chance(30)) continue;
+			if (m >= 2 && !rng.chance(m >= 4 ? 15 : 30)) continue;
 			String text = Json::encode(v, Json::Mode(modes[m].mode));
 			std::string tx(*text, (size_t)text.length());
 			rec.rt("string", true, modes[m].exact, modes[m].mode, t, &tx, Json::decode(text));
